@@ -175,6 +175,17 @@ func runUsablePhase(e *Env, idx int, ph usablePhase) string {
 		e.Hooks.SetDelay(h.PCT(e.Seed, int64(idx)))
 		defer e.Hooks.SetDelay(nil)
 	}
+	if e.Hooks != nil {
+		// interleaving signature of this phase: hash of the global order of hook events (phases run one at a time per process)
+		e.Hooks.StartTrace()
+		defer func() {
+			sig, ev := e.Hooks.StopTrace()
+			if len(ev) > 0 {
+				R.Seen("interleaving_signatures(first 64 listed)", fmt.Sprintf("%016x(%d events)", sig, len(ev)))
+				R.Count("phases_with_recorded_interleaving", 1)
+			}
+		}()
+	}
 	rng := rand.New(rand.NewSource(e.Seed*31 + int64(idx)))
 	var tasks []*h.Task
 	cancels := 0
